@@ -261,6 +261,10 @@ def cascade_cases(draw, tier, formats=None, want_range=False):
             n = draw(st.integers(1, depth))
             acc.add((n, draw(st.integers(0, 2**n - 1)), draw(st.integers(0, 2**n - 1))))
         case["filter"] = {"default": False, "flip": sorted(list(a) for a in acc)}
+    if draw(st.integers(0, 3)) == 0:
+        case["open"] = "guessed"
+    if draw(st.integers(0, 3)) == 0:
+        case["dir"] = "dotted"
     k = draw(st.sampled_from([1, 1, 2, 2, 3, 4]))
     case["k"] = k
     if k > 1:
